@@ -724,8 +724,8 @@ Qed.
 
 Lemma prop_C32_of_model i : wf_C32 i = true -> kf_C32 i = 0 -> prop_C32 i (run_C32 i) = true.
 Proof.
-  unfold wf_C32, kf_C32, prop_C32, run_C32. destruct (dec_input i) as [[mr cs]|]; [|discriminate].
-  destruct (write_all cs) as [wire errs] eqn:Ew. cbn [fst snd]. intros Hwf Hkf.
+  unfold wf_C32, kf_C32, prop_C32, run_C32. destruct (dec_input i) as [[mr cs]|] eqn:Ei; [|discriminate].
+  destruct (write_all cs) as [wire errs] eqn:Ew. cbn [fst snd]. unfold vLZ, prop_base. rewrite Ei. intros Hwf Hkf.
   apply andb_true_iff in Hwf. destruct Hwf as [Hwf H4]. apply andb_true_iff in Hwf. destruct Hwf as [Hwf H3].
   apply andb_true_iff in Hwf. destruct Hwf as [H1 H2].
   unfold vLZ. rewrite dec_lite_all. rewrite (rules_ok_read_all _ _ _ _ H1). cbn [andb].
